@@ -255,6 +255,11 @@ def r3_sweep(ctx, chk, rule="C02.3"):
         return
     f, sx, W, F, fo, where = r["f"], r["sx"], r["W"], r["F"], r["fold"], r["where"]
     slist = shared.SLIST(ctx)
+    if strip_perm(F.source) != slist and mentions(F.source, lambda x: x[0] == "res" and len(x) == 3 and x[2] == "$yield"):
+        # the pass is driven by a generator that performs the updates itself and yields the changes: what it covers is not read off
+        # the loop header
+        chk.undecided(rule, where, "the reward sweep is driven by `%s`: which states one pass covers is not resolved" % show(F.source)[:80])
+        return
     if strip_perm(F.source) != slist:
         chk.violation(rule, where, "the reward sweep iterates `%s`, not the whole state list" % show(F.source), expected="for state in self.state_list",
                       found=show(F.source), construct="value_iteration_total_rewards domain")
